@@ -26,9 +26,9 @@ EXHAUSTIVE = True
 NSHARDS = {"quick": 8, "thorough": 16}
 TIMEOUT = {"quick": 1500, "thorough": 7200}
 FLOORS = {"quick": {"sweep_validations": 2500, "distinct:entries": 100, "schema_contract_evals": 60, "history_steps": 300,
-                    "accepted_in_range": 500, "rejected_out_of_range": 200},
+                    "accepted_in_range": 500, "rejected_out_of_range": 200, "sweep_validations_of_root_lists": 800},
           "thorough": {"sweep_validations": 2500, "distinct:entries": 100, "schema_contract_evals": 300, "history_steps": 15000,
-                       "accepted_in_range": 500, "rejected_out_of_range": 200}}
+                       "accepted_in_range": 500, "rejected_out_of_range": 200, "sweep_validations_of_root_lists": 800}}
 ASSUMPTIONS = ["expected verdict = own pruning (keep iff minVersion <= v <= maxVersion, dicts and lists, every depth) of the own-inlined "
                "schema + the jsonschema evaluator - not range arithmetic, because a value may match a sibling alternative that is in range",
                "exported schemas are compared as JSON values (pure-Python encoder; jsonref proxies defeat the C encoder)"]
@@ -230,6 +230,19 @@ def sweep(ctx, eng):
                     res.violation(kind, case, {"messages": names(msgs)[:5]}, {"independent": want[:5], "in_range": in_range(lo, hi, ver)})
                 elif names(msgs) != want:
                     res.violation("version-messages-differ-from-independent-pruning", case, names(msgs)[:6], want[:6])
+                if (idx + len(want)) % 3 == 0:
+                    # the same object twice as a LIST of roots (what loads gives for a text with several root blocks): each is judged
+                    res.count("sweep_validations_of_root_lists")
+                    try:
+                        lm = v.validate([copy.deepcopy(d), copy.deepcopy(d)], schema_name=chain[0], version=ver)
+                        flush(res)
+                        if names(lm) != sorted(want + want):
+                            res.violation("version-verdict-differs-for-a-list-of-roots", dict(case, part="sweep-list"), names(lm)[:6],
+                                          sorted(want + want)[:6])
+                    except ContractBroken:
+                        raise
+                    except Exception as ex:
+                        res.violation("validate-raises-with-version", dict(case, part="sweep-list"), f"{type(ex).__name__}: {str(ex)[:200]}", None)
                 if mine:
                     res.count("rejected_out_of_range" if not in_range(lo, hi, ver) else "rejected_in_range(sibling/other)")
                 else:
